@@ -1,2 +1,22 @@
-def run(run):
-    pass
+"""C09/C10 code -> spec: random long histories recorded from the real FSA and validated by
+TLC against FSATrace.tla (batched: one TLC run per file of histories)."""
+from .. import fsa_trace
+
+
+def run(run, n=None, length=None):
+    quick = run.tier == "quick"
+    n = n or (150 if quick else 1500)
+    length = length or (40 if quick else 60)
+    verts, labels = [0, 1, 2, 3, 4, 5], ["a", "b", "c"]
+    traces, errors = fsa_trace.record_random(run.seed, n, verts, labels, length)
+    for tid, msg, tail in errors:
+        run.violation(key="trace-raise:%s:%s" % (msg[:80], tail[-1:] if tail else ""), clause="raised:recording",
+                      detail=dict(error=msg, last_events=tail))
+    ok, bad = fsa_trace.validate_and_report(run, traces, verts, labels)
+    run.evaluations += sum(len(t) for t in traces)
+    run.nontrivial_count += ok
+    run.extra["trace_validation"] = dict(histories=len(traces), events=sum(len(t) for t in traces),
+                                         accepted=ok, rejected=bad, universe="6 vertices x 3 labels")
+    if traces:
+        run.sample(dict(kind="recorded history (first 4 events, views elided)",
+                        events=[{k: v for k, v in e.items() if k != "post"} for e in traces[0][:4]]))
